@@ -4,6 +4,7 @@ Units: real DynamicUniverse / StaticUniverse.get_assets, SingleSignalAlphaModel,
 EqualWeightPortfolioOptimiser with symbolic instants, signal, scale and weights.  Composition: the PCM harness of
 vf/props/pcm.py with a DynamicUniverse whose entry instants and the rebalance instant are symbolic.
 """
+from fractions import Fraction
 from vf.engine.driver import Harness
 from vf.props import pcm
 
@@ -103,10 +104,12 @@ class Units(Harness):
         for a in A:
             if a in o['fixed']:
                 obl.append(('fixed_weight_unchanged[%s]' % a, L.ne(o['fixed'][a], i['w'][a])))
+            # 1/N is a double constant in any implementation (1/3 is not exact): equality up to 1e-12 relative
+            tol = Fraction(1, 10 ** 12) * L.abs(i['scale'])
             if a in o['equal']:
-                obl.append(('equal_weight_is_scale_over_N[%s]' % a, L.ne(L.num(o['equal'][a]) * n, i['scale'])))
+                obl.append(('equal_weight_is_scale_over_N[%s]' % a, L.gt(L.abs(L.num(o['equal'][a]) * n - L.num(i['scale'])), tol)))
                 tot = tot + L.num(o['equal'][a])
-        obl.append(('equal_weights_sum_to_scale', L.ne(tot, i['scale'])))
+        obl.append(('equal_weights_sum_to_scale', L.gt(L.abs(tot - L.num(i['scale'])), Fraction(1, 10 ** 12) * L.abs(i['scale']))))
         return obl
 
     def twins(self, L, i, out):
